@@ -60,6 +60,12 @@ def main():
         try:
             env = dict(os.environ, PYTHONPATH=f"{wt}/src")
             demo = d / "demo.py"
+            if "--reuse-demo" in sys.argv and (d / f"result_{tier}.json").exists():
+                # the demonstration was confirmed (0 on clean, non-zero on patched) at this /repo HEAD already: do not run it again
+                pj = json.loads((d / f"result_{tier}.json").read_text())
+                if pj.get("repo_head") == res["repo_head"] and pj.get("demo_clean_exit") == 0 and pj.get("demo_patched_exit") not in (0, None):
+                    demo = d / "no-such-file"
+                    res["demo_clean_exit"], res["demo_patched_exit"], res["demo_reused"] = pj["demo_clean_exit"], pj["demo_patched_exit"], True
             if demo.exists():
                 res["demo_clean_exit"] = sh(["/venv/bin/python", str(demo)], env=env, cwd="/tmp", timeout=1800).returncode
             ap = sh(["git", "-C", str(wt), "apply", str(d / "patch.diff")])
